@@ -209,13 +209,131 @@ def unhex(s):
     return b"" if s == "-" else bytes.fromhex(s)
 
 
+def bitpack(vals, width=None, length=None):
+    """Python re-implementation of the bit-packed layout, used only to *craft* malformed dictionary tails."""
+    if width is None:
+        width = max(1, max(vals).bit_length()) if vals else 1
+    if length is None:
+        length = len(vals)
+    bits = format(length % 2**32, "032b") + format(width % 256, "08b")
+    for v in vals:
+        if width > 0:
+            bits += format(v % 2**width, "0%db" % width)
+    bits += "0" * (-len(bits) % 8)
+    return bytes(int(bits[i:i + 8], 2) for i in range(0, len(bits), 8))
+
+
+def rle(idx):
+    out = []
+    for i in idx:
+        if out and out[-2] == i:
+            out[-1] += 1
+        else:
+            out += [i, 1]
+    return out
+
+
+def craft_dict(rng, items, enc):
+    """(kind, bytes, count): the values part of a valid dictionary encoding followed by a crafted index part"""
+    order = []
+    for it in items:
+        if it not in order:
+            order.append(it)
+    idx = [order.index(it) for it in items]
+    good = bitpack(rle(idx))
+    if not enc.endswith(good):
+        return None
+    head, nv, n = enc[:len(enc) - len(good)], len(order), len(items)
+    k = rng.choice(["idx=len", "idx=len+1", "idx-big", "odd", "sum+1", "sum-1", "huge-count", "max-count", "width0",
+                    "width33", "width255", "len-inflated", "len-max", "empty-rle", "valid"])
+    r = rle(idx)
+    if k == "idx=len":
+        r[2 * rng.randrange(len(r) // 2)] = nv
+    elif k == "idx=len+1":
+        r[2 * rng.randrange(len(r) // 2)] = nv + 1
+    elif k == "idx-big":
+        r[2 * rng.randrange(len(r) // 2)] = rng.choice([255, 256, 2**16, 2**32 - 1])
+    elif k == "odd":
+        r = r[:-1] if rng.random() < 0.5 else r + [0]
+    elif k == "sum+1":
+        r[2 * rng.randrange(len(r) // 2) + 1] += 1
+    elif k == "sum-1":
+        r[2 * rng.randrange(len(r) // 2) + 1] -= 1
+    elif k == "huge-count":
+        r[2 * rng.randrange(len(r) // 2) + 1] = rng.choice([2**20, 2**28, 2**31])
+    elif k == "max-count":
+        r[2 * rng.randrange(len(r) // 2) + 1] = 2**32 - 1
+    if k == "width0":
+        tail = bitpack([], width=0, length=rng.choice([1, 8, 1000, 2**24, 2**32 - 1]))
+    elif k == "width33":
+        tail = bitpack(r, width=rng.choice([33, 40, 64, 65]))
+    elif k == "width255":
+        tail = bitpack(r, width=255)
+    elif k == "len-inflated":
+        tail = bitpack(r, length=len(r) + rng.choice([1, 2, 7, 1000]))
+    elif k == "len-max":
+        tail = bitpack(r, length=2**32 - 1)
+    elif k == "empty-rle":
+        tail = bitpack([])
+    else:
+        tail = bitpack(r)
+    return k, head + tail, rng.choice([n, n, n, n + 1, max(0, n - 1), 0, 2**32 - 1])
+
+
 class C11(vlib.Spec):
     prop = "C11"
     lean_modules = ["Banyan.Props.C11", "Banyan.Tie.C11"]
-    theorems = []
+    theorems = ["Banyan.C11." + t for t in [
+        "varint64_rt",
+        "varuint64_rt",
+        "varuint64_single_rt",
+        "int64_fixed_rt",
+        "int64List_rt",
+        "int64List_mode",
+        "compressBlock_rt",
+        "uint64Block_rt",
+        "bytesBlock_rt",
+        "bytesBlockWithTail_rt",
+        "encodeBytes_rt",
+        "bitpack_rt",
+        "rle_rt",
+        "dictionary_rt",
+        "dictionary_refuses_257th",
+        "dictionary_accepts",
+        "float_rt",
+        "float_fixed_eq_legacy",
+        "float_encode_ne_panic",
+        "float_legacy_counterexample",
+        "mulPow10_exact",
+        "mulPow10Step_refuses_only_on_overflow",
+        "decimal_scaling_exact",
+        "varArray_rt",
+        "tagValues_rt",
+        "decoder_total_varint",
+        "decoder_total_int64List",
+        "decoder_total_blocks",
+        "decoder_total_dictionary",
+        "decoder_total_varArray",
+        "dictionary_legacy_panics_odd_rle",
+        "dictionary_legacy_panics_index",
+        "bitPacking_legacy_unbounded",
+        "rle_legacy_unbounded",
+        "idZ_lawful"]] + ["Banyan.Tie.C11." + t for t in [
+        "encodeType_tie",
+        "modeOrder_tie",
+        "incremental_tie",
+        "plainBlock_tie",
+        "uintBlock_tie",
+        "varintSmall_tie",
+        "varintLen_tie",
+        "dictionary_tie",
+        "varArray_tie",
+        "pow10_tie",
+        "pow10_behaviour_tie",
+        "tagHeader_tie"]]
     go_driver = "c11"
     lean_driver = "C11"
-    counts = {"quick": 24000, "thorough": 600000}
+    counts = {"quick": 24000, "thorough": 400000}
     trusted_base = [
         "Lean 4.33.0 kernel",
         "correspondence check: Go driver hooks/banyand/internal/verifdrv/c11 vs lean_exe drv_c11, byte-exact",
@@ -240,6 +358,15 @@ class C11(vlib.Spec):
             "subnormals, NaN, Inf, >2^53, 1..17 digit decimals, mixed exponents), var-arrays rich in '|' and '\\\\'; each "
             "encoding is additionally truncated / bit-flipped / length-inflated / extended / replaced by random bytes and "
             "fed to the decoder with the true and with perturbed item counts; non-trivial = distinct case")
+
+    def __init__(self):
+        import collections
+        self.sub = collections.Counter()
+
+    def extra(self, R, tier, rng):
+        """evidence: which encodings / modes / outcome classes the run actually hit"""
+        for k, v in sorted(self.sub.items()):
+            R.count(k, v)
 
     # ------------------------------------------------------------------------------------
     def gobin(self):
@@ -321,7 +448,9 @@ class C11(vlib.Spec):
             op = f[0]
             if not o or o[0] in ("PANIC", "PANIC-RT", "CRASH", "REFUSED", "ERR", "bad-op"):
                 continue
-            if op in ("vi64", "vu64", "u64b", "bb", "dict", "bp", "cblk", "bytes", "va"):
+            if op == "dict":
+                pool.append((op, unhex(o[0]), len(f) - 1, [None if x == "n" else unhex(x) for x in f[1:]]))
+            elif op in ("vi64", "vu64", "u64b", "bb", "bp", "cblk", "bytes", "va"):
                 pool.append((op, unhex(o[0]), len(f) - 1, None))
             elif op == "i64l":
                 pool.append((op, unhex(o[0]), len(f) - 1, (int(o[1]), int(o[2]))))
@@ -334,7 +463,17 @@ class C11(vlib.Spec):
             op, enc, cnt, extra = rng.choice(pool)
             if len(enc) > 600 and rng.random() < 0.8:
                 continue
+            if op == "dict" and cnt <= 64 and rng.random() < 0.5:
+                c = craft_dict(rng, extra, enc)
+                if c is not None:
+                    self.sub["craft:" + c[0]] += 1
+                    if rng.random() < 0.8:
+                        out.append("dec-dict %s %d" % (hx(c[1]), c[2]))
+                    else:
+                        out.append("dec-tag S %s %d" % (hx(bytes([10]) + c[1]), min(c[2], 9000)))
+                    continue
             kind, m = mutate(rng, enc) if rng.random() < 0.85 else ("same", enc)
+            self.sub["mut:" + kind] += 1
             c = mut_count(rng, cnt)
             h = hx(m)
             if op == "vi64":
@@ -402,6 +541,16 @@ class C11(vlib.Spec):
             return ("violation", "%s: runtime fault in the implementation: %s" % (op, g[:200]))
         if g == "bad-op":
             return ("violation", "harness: driver does not know the case")
+        if op == "i64l" and len(o) >= 2:
+            self.sub["i64l-mode:" + {"1": "const", "2": "deltaConst", "3": "delta", "4": "deltaOfDelta"}.get(o[1], o[1])] += 1
+        elif op == "tag" and o:
+            self.sub["tag-%s-enc:%s" % (a[0], {"9": "plain", "10": "dictionary"}.get(o[0], "intlist" + o[0]))] += 1
+        elif op == "f64":
+            self.sub["f64:" + ("refused" if g == "REFUSED" else "accepted")] += 1
+        elif op in ("bb", "cblk", "u64b", "dict") and o:
+            self.sub[op + ":" + ("zstd" if " ; Z" in line else "plain")] += 1
+        elif op.startswith("dec-") and o:
+            self.sub["dec:" + o[0].split("-")[0]] += 1
         if op in ("vi64", "vu64", "u64b", "bb", "bp", "cblk"):
             return None if o[-1] == "=" and len(o) == 2 else ("violation", "%s round trip: %s" % (op, g[:200]))
         if op == "i64l":
